@@ -70,6 +70,21 @@ func (e *Engine) VerifyFunc(key string, small bool) *FnCtx {
 		g := envPre.trAssume(c.E)
 		fc.facts = append(fc.facts, Fact{Text: "(assert " + g + ")", Tag: "pre:" + c.Label})
 	}
+	if ctr.IterBody && fn.Parent() != nil && len(fn.Params) == 2 {
+		// `iterated`: the collection whose iterator calls this closure; the element passed is a member of it
+		it := fc.declare("iterated", "Int")
+		fr.iterated = it
+		p0, _ := fr.paramLookup(fn.Params[0].Name(), entry)
+		p1, _ := fr.paramLookup(fn.Params[1].Name(), entry)
+		switch ctr.IterKind {
+		case "goset":
+			fc.compDecl("G:gsmem", "(Array Int (Array Int Bool))")
+			fc.fact("", "(select (select %s %s) %s)", fc.lookup(entry, "G:gsmem"), it, p1.T)
+		case "syncmap":
+			smv, smd := fc.syncMapComps()
+			fc.fact("", "(and (select (select %s %s) %s) (= %s (select (select %s %s) %s)))", fc.lookup(entry, smd), it, p0.T, p1.T, fc.lookup(entry, smv), it, p0.T)
+		}
+	}
 	fc.nPreFacts = len(fc.facts)
 	fr.run(entry, "true")
 	// postconditions
